@@ -168,6 +168,18 @@ def run(ctx):
         "restart: the old incarnation's goroutines have ended, the new one has logged its guardian-set fetch, Run is parked in its final "
         "select and the new poller is idle after its first block read (goroutine states); the only real-time wait is the supervisor's own "
         "back-off. "
+        "Failing FIRST block query of the poller (`pe=`/`nn=`/`tried=` of a start or restart line): the first eth_getBlockByNumber of a "
+        "fresh BlockPollConnector fails (RPC error or number-less block) - 3 fixed scenarios on the chain read at finalized height "
+        "(finalized 100 / latest 132, dev mode as control: a message logged in block 105, a re-observation request for block 104, "
+        "finality advancing to 101, 105, 106), up to 3 generated cases per run in any configuration, and one restart scenario; the "
+        "Spec judges every later hand-over against the heads the node served at the height the CONFIGURATION reads (`forwarded-not-final` "
+        "when a message was handed over at a processed head beyond them, `reobs-not-final`, `head-not-served`). "
+        "Op `rreobs` (96 fixed scenarios in 4 configurations + one in three generated re-observations while the poller is off): the node "
+        "runs in step mode - every head / receipt / block-time request of the re-observation parks at the node and the harness releases "
+        "them one by one - and changes branch after k = 0..4 of them (receipt gone / re-mined 0..3 blocks higher / failed there / "
+        "untouched, heads moving up to or past the message's depth, or down); the line carries both views and the requests in order "
+        "with the view each was answered in. A handed-over message must be justified in one of the two views by the heads the watcher "
+        "had seen by then (`reobs-receipt-moved`: deep enough only under a head read after the receipt had stopped pointing to the block). "
         "Synchronised by barriers (RPC requests seen "
         "by the node, the watcher's own log lines, pointer identity of pending entries, an unbuffered request channel, goroutine "
         "states of the poller / the log goroutine); no sleeps, "
@@ -189,7 +201,10 @@ def run(ctx):
         "generator stays below 2^40)",
         "liveness half (forwarded at the first processed head with height+conf <= head) is relative to the poller publishing heads and "
         "to the node's answers; the poller only runs while something is pending",
-        "guardian-set polling (the 15 s ticker) and dial/subscribe failures at start-up other than a failing guardian-set call are outside "
+        "re-observation during a change of branch: blocks stay retrievable by hash on either branch (as on a real node); a change after "
+        "the request's last RPC request is outside what any implementation can see and is justified by the earlier view",
+        "guardian-set polling (the 15 s ticker) and dial/subscribe failures at start-up other than a failing guardian-set call or a failing "
+        "first block query of the poller are outside "
         "the modelled behaviour; restarts of Run by the supervisor are modelled (`restart`: the Watcher's pending set is kept, the new "
         "poller starts switched off with the current head as its last block)",
     ]
